@@ -227,6 +227,10 @@ class NumpyCodegenMapper(CachedMapper[str, Never, []]):
                                            attr=cast("str", e_np.dtype.name)),
                         args=[_constant(value="nan")],
                         keywords=[])
+                elif repr(e).startswith("-"):
+                    # A negative literal is a unary minus applied to a constant:
+                    # emitted as such, "(-2) ** x" is not printed as "-2 ** x".
+                    return ast.UnaryOp(ast.USub(), _constant(-e))
                 else:
                     return _constant(e)
 
